@@ -231,6 +231,7 @@ fn run_c14(t: &mut Tape, _tier: Tier) -> RunOut {
     mix.exec.spurious_one_in = 10;
     mix.exec.cancel_one_in = 25;
     mix.control_twin = true;
+    mix.baseline = true;
     mix.body_fault_one_in = 8;
     mix.defect_kinds = faults::DEFECT_KINDS.to_vec();
     mix.max_defects = 2;
